@@ -5122,7 +5122,8 @@ impl<K: Introspect + Eq + Hash, V: Introspect, S: ::std::hash::BuildHasher> Intr
         }
     }
     fn introspect_len(&self) -> usize {
-        self.len()
+        // key and value of every entry are separate children
+        2 * self.len()
     }
 }
 
@@ -5146,7 +5147,8 @@ impl<K: Introspect + Eq + Hash, V: Introspect, S: ::std::hash::BuildHasher> Intr
         }
     }
     default fn introspect_len(&self) -> usize {
-        self.len()
+        // key and value of every entry are separate children
+        2 * self.len()
     }
 }
 
@@ -5230,7 +5232,8 @@ impl<K: Introspect, V: Introspect> Introspect for BTreeMap<K, V> {
         }
     }
     fn introspect_len(&self) -> usize {
-        self.len()
+        // key and value of every entry are separate children
+        2 * self.len()
     }
 }
 
@@ -5441,7 +5444,8 @@ impl<K: Introspect + Eq + Hash, V: Introspect, S: ::std::hash::BuildHasher> Intr
     }
 
     fn introspect_len(&self) -> usize {
-        self.len()
+        // key and value of every entry are separate children
+        2 * self.len()
     }
 }
 
@@ -5470,7 +5474,8 @@ impl<K: Introspect + Eq + Hash, V: Introspect, S: ::std::hash::BuildHasher> Intr
     }
 
     default fn introspect_len(&self) -> usize {
-        self.len()
+        // key and value of every entry are separate children
+        2 * self.len()
     }
 }
 
